@@ -47,36 +47,24 @@ Theorem C61_manager_answer_requires_http_access :
 Proof. exact answer_requires_access. Qed.
 Print Assumptions C61_manager_answer_requires_http_access.
 
-(* (2) Every request the cache manager would handle matches the `manager` ACL -- when the effective URI carries
-   no user-info (http, https; ftp without login). *)
-Theorem C61_manager_acl_covers_manager_requests_partial :
+(* (2) Every request the cache manager would handle matches the `manager` ACL: since 6b03ef7 only http(s) URLs are
+   internal, and their effective URI carries no user-info. *)
+Theorem C61_manager_acl_covers_manager_requests :
   forall e q,
-    host_ok (e_myhost e) -> no_userinfo q -> q_scheme q <> SOther ->
+    host_ok (e_myhost e) ->
     is_internal e q = true -> for_cache_manager q = true ->
     acl_manager q = true.
-Proof. exact acl_covers_partial. Qed.
-Print Assumptions C61_manager_acl_covers_manager_requests_partial.
+Proof. exact acl_covers_all. Qed.
+Print Assumptions C61_manager_acl_covers_manager_requests.
 
 (* ... hence `http_access deny manager` as the first line refuses them all: no cache-manager answer of any kind,
-   for all action tables, passwords, later rules and requests without user-info. *)
-Theorem C61_deny_manager_blocks_manager_requests_partial :
+   for ALL action tables, passwords, later rules and requests (any scheme, any user-info). *)
+Theorem C61_deny_manager_blocks_manager_requests :
   forall e menu pl rest q,
-    host_ok (e_myhost e) -> no_userinfo q ->
+    host_ok (e_myhost e) ->
     mgr_answer (handle e menu pl (mkRule false [AMgr] :: rest) q) = false.
 Proof. exact deny_manager_blocks. Qed.
-Print Assumptions C61_deny_manager_blocks_manager_requests_partial.
-
-(* The same statement without the user-info restriction is FALSE for the code as it is:
-   GET ftp://a%2Fb@verif.test:3128/squid-internal-mgr/menu under `deny manager` / `allow all` is an internal
-   manager request that the ACL does not match, and the report is produced; without the user-info it is denied.
-   (Finding C61-manager-acl-ftp-userinfo, replayed against the running squid by the check.) *)
-Theorem C61_deny_manager_blocks_manager_requests_refuted :
-  exists e menu pl rest q,
-    host_ok (e_myhost e)
-    /\ is_internal e q = true /\ for_cache_manager q = true /\ acl_manager q = false
-    /\ handle e menu pl (mkRule false [AMgr] :: rest) q = RReport s_menu.
-Proof. exact deny_manager_refuted. Qed.
-Print Assumptions C61_deny_manager_blocks_manager_requests_refuted.
+Print Assumptions C61_deny_manager_blocks_manager_requests.
 
 (* (3) The action performed is the one the URL names (path after the prefix up to '?' or '#'), and it is in the table. *)
 Theorem C61_report_is_for_the_action_the_url_names :
@@ -91,8 +79,8 @@ Print Assumptions C61_report_is_for_the_action_the_url_names.
 
 (* (4) A report implies the password rule admitted it: the first cachemgr_passwd line naming the action (or `all`)
    is not `disable`, and is either `none` or a password that the Authorization field carries (Basic, base64 of
-   user ":" pass, pass non-empty, equal to the configured password as a C string); with no such line the action
-   is not password-required. *)
+   user ":" pass, pass non-empty and EQUAL to the configured C string: same length, same bytes); with no such line
+   the action is not password-required. *)
 Theorem C61_report_respects_cachemgr_passwd :
   forall e menu pl rules q n,
     handle e menu pl rules q = RReport n -> path_ok q ->
@@ -100,21 +88,20 @@ Theorem C61_report_respects_cachemgr_passwd :
        pe_passwd e0 <> kw_disable
        /\ (pe_passwd e0 = kw_none
            \/ exists f user pass, q_auth q = Some f /\ basic_credentials f user pass
-                                  /\ pass <> [] /\ cstr pass = cstr (pe_passwd e0)))
+                                  /\ pass <> [] /\ pass = cstr (pe_passwd e0)))
     /\ (uncovered pl n -> exists a, In a menu /\ a_name a = n /\ a_pwreq a = false).
 Proof. exact report_respects_passwd. Qed.
 Print Assumptions C61_report_respects_cachemgr_passwd.
 
-(* Exact equality of the supplied and the configured password is FALSE for the code as it is: "secret" NUL "x"
-   is admitted for `cachemgr_passwd secret info` (finding C61-password-nul-suffix); the right password is admitted
-   and no password is challenged. *)
-Theorem C61_password_exact_refuted :
-  exists e menu pl rules q n e0,
-    first_covering pl n e0 /\ pe_passwd e0 <> kw_none
-    /\ handle e menu pl rules q = RReport n
-    /\ supplied_password (q_auth q) <> pe_passwd e0.
-Proof. exact password_exact_refuted. Qed.
-Print Assumptions C61_password_exact_refuted.
+(* Exact password equality (5479385): for a protected action whose configured password is a C string (no NUL, as
+   every squid.conf token is), the password the request supplied IS the configured password. *)
+Theorem C61_report_password_exact :
+  forall e menu pl rules q n e0,
+    handle e menu pl rules q = RReport n -> path_ok q ->
+    first_covering pl n e0 -> pe_passwd e0 <> kw_none -> forallb nonul (pe_passwd e0) = true ->
+    supplied_password (q_auth q) = pe_passwd e0.
+Proof. exact report_password_exact. Qed.
+Print Assumptions C61_report_password_exact.
 
 (* (5) Disabled actions, and password-required actions without a configured password, are never performed and not
    even challenged: any answer about an action (report, index, 401) implies neither is the case. *)
@@ -142,13 +129,17 @@ Print Assumptions C61_model_never_runs_out_of_fuel.
 
 (* hypotheses are satisfiable and the statements are not vacuous *)
 Example C61_ex_hypotheses :
-  host_ok (e_myhost w_env) /\ path_ok w_good /\ no_userinfo w_plain /\ no_userinfo w_good /\ uncovered w_pl s_menu.
+  host_ok (e_myhost w_env) /\ path_ok w_good /\ uncovered w_pl s_menu
+  /\ first_covering w_pl s_info (mkPw s_secret [s_info]) /\ forallb nonul s_secret = true.
 Proof. exact ex_hypotheses. Qed.
 
+(* outcomes, including the two former findings: "secret" NUL "x" is challenged, the ftp user-info URL is not answered *)
 Example C61_ex_outcomes :
   handle w_env w_menu w_pl [mkRule true [AAll]] w_good = RReport s_info
   /\ handle w_env w_menu w_pl [mkRule true [AAll]] w_noauth = RAuthReq s_info
+  /\ handle w_env w_menu w_pl [mkRule true [AAll]] w_nul = RAuthReq s_info
   /\ handle w_env w_menu [] deny_manager_allow_all w_plain = RDenied
+  /\ handle w_env w_menu [] deny_manager_allow_all w_bypass = RForwarded
   /\ handle w_env w_menu [mkPw kw_disable [s_menu]] [mkRule true [AAll]]
        (mkReq MGet SHttp [] w_host 3128 (q_path w_bypass) None) = RNotFound
   /\ handle w_env w_menu [] [mkRule true [AAll]]
